@@ -50,6 +50,10 @@ MUTANTS = [
      "                x, y = np.where(own)\n",
      "                x, y = np.where(snr[xmin:xmax, ymin:ymax] >= "
      "flood_clip)\n", "C11-R2"),
+    ("only seed pixels tested (seed C11b)", "AegeanTools/source_finder.py",
+     "                x, y = np.where(own)\n",
+     "                x, y = np.where(own & (snr[xmin:xmax, ymin:ymax] > "
+     "seed_clip))\n", "C11-R2"),
     ("region shapes the island", "AegeanTools/source_finder.py",
      "                if not np.any(mask):\n                    continue\n\n"
      "            # copy so that we don't blank the master data",
@@ -66,6 +70,11 @@ MUTANTS = [
      "psfhelper,", "            wcs=global_data.psfhelper,", "C11-R4"),
 ]
 TWINS = [
+    ("finite own pixels tested (implied by membership)",
+     "AegeanTools/source_finder.py",
+     "                x, y = np.where(own)\n",
+     "                x, y = np.where(own & np.isfinite(snr[xmin:xmax, "
+     "ymin:ymax]))\n"),
     ("degin via keyword order", "AegeanTools/source_finder.py",
      "                mask = region.sky_within(ra, dec, degin=True)\n"
      "                if not np.any(mask):\n                    continue\n\n"
@@ -110,6 +119,17 @@ def run(ctx):
                   "bounding box: an island outside the region is kept "
                   "because a neighbour's pixel is inside" %
                   [norm(s, 60) for s in srcs], node=w)
+        for s_ in srcs:
+            extra = m.narrowing(s_)
+            if extra is None:
+                continue
+            ctx.check("C11-R2", fi, "pixel source %s is ALL own pixels" %
+                      norm(s_, 40), not extra,
+                      "the positions tested against the region are only the "
+                      "island pixels that also satisfy %s: an island whose "
+                      "pixels inside the region all fail that condition is "
+                      "dropped although one of its pixels is inside" % extra,
+                      node=w)
     # ---------------------------------------------------------------- R3
     ctx.rule("C11-R3", "non-interference: region-derived values are used "
              "only in the accept/skip guard")
